@@ -433,7 +433,10 @@ func (e *enc) fromInt(x string) string {
 
 func (e *enc) strAt(x, idx string) string {
 	if e.strTheory {
-		return e.fromInt(fmt.Sprintf("(str.to_code (str.at %s %s))", x, e.toInt(idx)))
+		// total: outside the string str.at is "" (code -1), which is no byte - a range fact about the
+		// value would then contradict the definition and kill the paths that do not index at all
+		i := e.toInt(idx)
+		return e.fromInt(fmt.Sprintf("(ite (and (<= 0 %s) (< %s (str.len %s))) (str.to_code (str.at %s %s)) 0)", i, i, x, x, i))
 	}
 	return e.fromInt(fmt.Sprintf("(sat %s %s)", x, e.toInt(idx)))
 }
@@ -722,10 +725,12 @@ func (e *enc) lookup(b *ssa.BasicBlock, i *ssa.Lookup) {
 	idx := e.val(i.Index)
 	e.addI("safe", "index", i, R, fmt.Sprintf("(and %s %s)", e.ige0(idx), e.icmp(token.LSS, idx, e.slenI(x), false)))
 	n := e.define(i, e.strAt(x, idx))
+	// a byte - on the path that got past the bounds check: with the strings theory str.at outside
+	// the string is "" with code -1, and an unconditional range fact would kill every other path
 	if e.bv {
-		e.assume(fmt.Sprintf("(bvule %s #x00000000000000ff)", n))
+		e.assumeAt(R, fmt.Sprintf("(bvule %s #x00000000000000ff)", n))
 	} else {
-		e.assume(fmt.Sprintf("(and (>= %s 0) (<= %s 255))", n, n))
+		e.assumeAt(R, fmt.Sprintf("(and (>= %s 0) (<= %s 255))", n, n))
 	}
 }
 
@@ -1035,6 +1040,13 @@ func (e *enc) convert(b *ssa.BasicBlock, i *ssa.Convert) {
 		n := e.havoc(i)
 		if !e.strTheory {
 			e.assume(fmt.Sprintf("(= (slen %s) %s)", n, e.toInt("(len "+x+")")))
+			if sl, ok := i.X.Type().Underlying().(*types.Slice); ok && e.fc != nil && e.fc.Opts["bytes"] == "precise" && !e.bv {
+				if eb, ok := sl.Elem().Underlying().(*types.Basic); ok && eb.Kind() == types.Uint8 {
+					// opt bytes precise: the bytes of the string are the elements of the slice at the conversion
+					l := loc{kind: "elem", arr: "Elems_" + sname(types.TypeString(sl.Elem(), qualName)), ref: "(arr " + x + ")", idx: "(+ (off " + x + ") k)", sort: e.sortOf(sl.Elem()), t: sl.Elem()}
+					e.assume(fmt.Sprintf("(forall ((k Int)) (! (=> (and (<= 0 k) (< k (slen %s))) (= (sat %s k) %s)) :pattern ((sat %s k))))", n, n, e.load(l), n))
+				}
+			}
 		} else {
 			e.assume(fmt.Sprintf("(= (str.len %s) %s)", n, e.toInt("(len "+x+")")))
 		}
